@@ -630,3 +630,50 @@ func (p Params) Verify(pk, msg, ctx, sig []byte) VerifyFacts {
 	f.CTildeOK = bytes.Equal(ctilde, shake256(p.CTilde, mu, w1enc))
 	return f
 }
+
+// ---- boundary seeds.  ExpandA draws 23-bit candidates and keeps those below q; the candidate q itself (probability 2^-23 per draw,
+// about 5e-4 per ML-DSA-44 key) is where an off-by-one in a rejection test shows.  BoundarySeed searches, deterministically from `start`,
+// for a key seed xi whose matrix expansion consumes a candidate equal to `target` (q: must be rejected; q-1: must be kept).
+func (p Params) expandAHits(rho []byte, target int64) bool {
+	for r := 0; r < p.K; r++ {
+		for s := 0; s < p.L; s++ {
+			h := sha3.NewShake128()
+			_, _ = h.Write(rho)
+			_, _ = h.Write([]byte{byte(s), byte(r)})
+			var c [3]byte
+			for j := 0; j < N; {
+				_, _ = h.Read(c[:])
+				v := int64(c[0]) | int64(c[1])<<8 | int64(c[2]&0x7f)<<16
+				if v == target {
+					return true
+				}
+				if v < Q {
+					j++
+				}
+			}
+		}
+	}
+	return false
+}
+
+func (p Params) BoundarySeed(start []byte, target int64, maxTries int) []byte {
+	xi := append([]byte{}, start...)
+	for t := 0; t < maxTries; t++ {
+		var e []byte
+		if p.MLDSA {
+			e = shake256(32, xi, []byte{byte(p.K), byte(p.L)})
+		} else {
+			e = shake256(32, xi)
+		}
+		if p.expandAHits(e[:32], target) {
+			return xi
+		}
+		for i := 0; i < len(xi); i++ { // next seed: little-endian increment
+			xi[i]++
+			if xi[i] != 0 {
+				break
+			}
+		}
+	}
+	return nil
+}
